@@ -311,17 +311,24 @@ func checkC17(c *Ctx, w *World) {
 				continue
 			}
 			for _, st := range storesTo(fa) {
-				if fresh, isFresh := st.Val.(*ssa.Alloc); isFresh {
-					// a hand-built message: none of its fields may carry a pointer into the caller's object
-					if bad := taintedFieldOfFresh(fresh, cfgParam, 0); bad != "" {
-						okClone = false
-						aliasWhy = bad
-					}
-					continue
-				}
-				src, isClone := cloneOf(st.Val)
-				if !isClone || !fromParam(src) {
+				// (the stored message may be merged from several branches: `apiCfg` = fresh literal | clone)
+				os := origins(st.Val)
+				if len(os) == 0 {
 					okClone = false
+				}
+				for _, o := range os {
+					if fresh, isFresh := o.Val.(*ssa.Alloc); isFresh && o.Kind == "alloc" {
+						// a hand-built message: none of its fields may carry a pointer into the caller's object
+						if bad := taintedFieldOfFresh(fresh, cfgParam, 0); bad != "" {
+							okClone = false
+							aliasWhy = bad
+						}
+						continue
+					}
+					src, isClone := cloneOf(o.Val)
+					if !isClone || !fromParam(src) {
+						okClone = false
+					}
 				}
 			}
 		}
